@@ -133,6 +133,7 @@ type auditor struct {
 	st      store
 	ev      []vtrace.Event
 	seen    map[string]bool
+	first   map[string]string       // digest -> name it was first reached under
 	closure map[string]bool         // every digest reached (manifests and blobs)
 	mans    map[string]bool         // manifests reached
 	refs    map[string]bool         // of these: reached as referrer (names a reached manifest as subject)
@@ -142,7 +143,7 @@ type auditor struct {
 }
 
 func newAuditor(st store, record bool) *auditor {
-	a := &auditor{st: st, seen: map[string]bool{}, closure: map[string]bool{}, mans: map[string]bool{},
+	a := &auditor{st: st, seen: map[string]bool{}, first: map[string]string{}, closure: map[string]bool{}, mans: map[string]bool{},
 		refs: map[string]bool{}, bySubj: map[string][]string{}, facts: map[string]vtrace.Event{}, record: record}
 	for _, d := range st.digests() {
 		if !st.isManifest(d) {
@@ -253,9 +254,14 @@ func short(d string) string {
 // manifest walks one manifest that is stored under dig.
 func (a *auditor) manifest(name, dig string) {
 	if a.seen[dig] {
+		// the same manifest under a second name (e.g. two index entries that became identical): same facts
+		if f, ok := a.facts[a.first[dig]]; ok {
+			a.facts[name] = f
+		}
 		return
 	}
 	a.seen[dig] = true
+	a.first[dig] = name
 	a.closure[dig] = true
 	a.mans[dig] = true
 	body, ok := a.st.get(dig)
